@@ -179,23 +179,7 @@ def main(repo, gen):
         p.write_text(txt)
 
 
-def foreign_caller():
-    """coq/gen is shared by concurrent ./check runs that may point at different checkouts (VERIF_REPO).  Only a
-    run that concerns C15 (./check C15, ./coqmake theories/Props/C15.vo, or a direct call) may replace an existing
-    table; runs for other properties leave it alone, so they cannot swap the table under a C15 build.
-    Anything unclear => not foreign => regenerate (fail-closed)."""
-    try:
-        import os
-        cmd = open(f"/proc/{os.getppid()}/cmdline", "rb").read().split(b"\0")
-        is_driver = any(a.endswith(b"common.py") for a in cmd) or any(a.startswith(b"theories/") for a in cmd) or b"-" in cmd
-        return is_driver and not any(b"C15" in a for a in cmd)
-    except Exception:
-        return False
-
-
 if __name__ == "__main__":
-    if foreign_caller() and (Path(sys.argv[2]) / "Batchable.v").exists():
-        sys.exit(0)
     try:
         main(sys.argv[1], sys.argv[2])
     except (Unsupported, SyntaxError, OSError) as e:
